@@ -2,10 +2,10 @@
 #pragma once
 #include "c14_core.h"
 
-enum { K_FQ = 0, K_FL, K_FR, K_Q, K_B, K_PQ, K_BC, K_LIM, K_MF, K_SEQ, K_OW, K_JOIN, K_SPLIT, K_IDX, K_ASYNC, K_CONT, K_FAN, K_IN, K_INR, K_COUNT };
+enum { K_FQ = 0, K_FL, K_FR, K_Q, K_B, K_PQ, K_BC, K_LIM, K_MF, K_SEQ, K_OW, K_JOIN, K_SPLIT, K_IDX, K_ASYNC, K_CONT, K_FAN, K_IN, K_INR, K_LFAN, K_COUNT };
 static const char* kind_name[] = { "fn_queueing", "fn_lightweight", "queue+fn_rejecting", "queue", "buffer", "priority_queue", "broadcast", "queue+limiter+fn+decrement",
                                    "multifunction", "sequencer", "overwrite", "broadcast+join+adapter", "fn+split", "indexer+adapter", "async", "fn+continue", "buffer+rejecting_workers",
-                                   "input", "input+fn_rejecting" };
+                                   "input", "input+fn_rejecting", "sender+{rejecting victim,audit}" };
 enum { JP_QUEUEING = 0, JP_RESERVING = 1, JP_KEY = 2 };
 enum { FRONT_QUEUE = 0, FRONT_BUFFER = 1, FRONT_PQ = 2 };
 
@@ -55,6 +55,24 @@ template <bool NE> static void build_node(Scen& s, NodeRec& n, Rng& r) {
         if (n.variant == 0) { auto* f = mk<fl::function_node<Msg, Msg, fl::rejecting>>(n, g, conc_of(n.limit), FnBody<NE>{ &s, p }); fl::make_edge(*q, *f); n.out[0] = f; }
         else { auto* f = mk<fl::function_node<Msg, Msg, fl::rejecting_lightweight>>(n, g, conc_of(n.limit), FnBody<NE>{ &s, p }); fl::make_edge(*q, *f); n.out[0] = f; }
         n.in[0] = q; n.desc = std::string(front_name(n.front)) + " -> function_node<rejecting" + (n.variant ? "_lightweight" : "") + ">(" + lim + ")";
+    } break;
+    case K_LFAN: {
+        // A non-buffering sender with two successors: the first one registered rejects (busy serial rejecting node, with or without a node
+        // priority, or a limiter that is never decremented) and may lose what it rejects; the second one accepts everything and must
+        // still be offered every message - also the one whose offer to the first successor ended with the edge being reversed.
+        bool bc = n.variant & 1; int vk = (n.variant >> 1) % 3;
+        Probe* pv = add_probe(s, n, "victim body (loses what it rejects)", 1, r); pv->lossy = true; if (pv->dpat == 0) pv->dpat = 1;
+        Probe* pa = add_probe(s, n, "audit body (second successor)", n.limit, r);
+        fl::sender<Msg>* snd; fl::receiver<Msg>* rcv;
+        if (bc) { auto* b = mk<fl::broadcast_node<Msg>>(n, g); snd = b; rcv = b; }
+        else { Probe* ph = add_probe(s, n, "head body", 0, r); auto* f = mk<fl::function_node<Msg, Msg, fl::queueing>>(n, g, fl::unlimited, FnBody<NE>{ &s, ph }); snd = f; rcv = f; }
+        if (vk == 0) { auto* v = mk<fl::function_node<Msg, Msg, fl::rejecting>>(n, g, fl::serial, FnBody<NE>{ &s, pv }); fl::make_edge(*snd, *v); }
+        else if (vk == 1) { auto* v = mk<fl::function_node<Msg, Msg, fl::rejecting>>(n, g, fl::serial, FnBody<NE>{ &s, pv }, fl::rejecting(), fl::node_priority_t(1)); fl::make_edge(*snd, *v); }
+        else { auto* l = mk<fl::limiter_node<Msg>>(n, g, 1); auto* v = mk<fl::function_node<Msg, Msg, fl::queueing>>(n, g, fl::serial, FnBody<NE>{ &s, pv }); fl::make_edge(*snd, *l); fl::make_edge(*l, *v); }
+        auto* a = mk<fl::function_node<Msg, Msg, fl::queueing>>(n, g, conc_of(n.limit), FnBody<NE>{ &s, pa });
+        fl::make_edge(*snd, *a);
+        n.in[0] = rcv; n.out[0] = a;
+        n.desc = std::string(bc ? "broadcast_node" : "function_node<queueing>(unlimited)") + " -> {" + (vk == 0 ? "function_node<rejecting>(serial)" : vk == 1 ? "function_node<rejecting>(serial, priority 1)" : "limiter_node(1, never decremented) -> function_node") + " [may lose], function_node<queueing>(" + lim + ") [must get everything]}";
     } break;
     case K_Q: case K_B: case K_PQ: case K_SEQ: {
         fl::buffer_node<Msg>* b;
@@ -178,6 +196,7 @@ static long transfer(Scen& s, NodeRec& n, const EV* Ein, EV* Eout, bool commit, 
     auto pr = [&](int i, const EV& e) { if (commit) add_to(n.probes[i]->exp, e); bodies += total(e); };
     switch (n.kind) {
     case K_FQ: case K_FL: case K_FR: case K_ASYNC: pr(0, Ein[0]); Eout[0] = Ein[0]; break;
+    case K_LFAN: for (size_t i = 0; i < (commit ? n.probes.size() : (size_t)(2 + !(n.variant & 1))); i++) pr((int)i, Ein[0]); Eout[0] = Ein[0]; break;
     case K_LIM: pr(0, Ein[0]); pr(1, Ein[0]); Eout[0] = Ein[0]; break;
     case K_FAN: for (int w = 0; w < n.k; w++) { if (commit) add_to(n.probes[w]->exp, Ein[0]); } bodies += total(Ein[0]); Eout[0] = Ein[0]; break;
     case K_Q: case K_B: case K_PQ: case K_SEQ: if (commit && n.drain) add_to(n.probes[0]->exp, Ein[0]); Eout[0] = Ein[0]; break;
@@ -222,7 +241,7 @@ static long propagate(Scen& s, bool commit, bool round0, std::vector<EV>* ein_at
 
 // ---------------------------------------------------------------------------------------------- generator
 static int pick_kind(Rng& r, bool first) {
-    static const int w[K_COUNT] = { /*FQ*/ 14, /*FL*/ 8, /*FR*/ 12, /*Q*/ 6, /*B*/ 5, /*PQ*/ 5, /*BC*/ 6, /*LIM*/ 9, /*MF*/ 7, /*SEQ*/ 3, /*OW*/ 2, /*JOIN*/ 9, /*SPLIT*/ 3, /*IDX*/ 4, /*ASYNC*/ 6, /*CONT*/ 4, /*FAN*/ 8, /*IN*/ 3, /*INR*/ 3 };
+    static const int w[K_COUNT] = { /*FQ*/ 14, /*FL*/ 8, /*FR*/ 12, /*Q*/ 6, /*B*/ 5, /*PQ*/ 5, /*BC*/ 6, /*LIM*/ 9, /*MF*/ 7, /*SEQ*/ 3, /*OW*/ 2, /*JOIN*/ 9, /*SPLIT*/ 3, /*IDX*/ 4, /*ASYNC*/ 6, /*CONT*/ 4, /*FAN*/ 8, /*IN*/ 3, /*INR*/ 3, /*LFAN*/ 8 };
     int tot = 0; for (int i = 0; i < K_COUNT; i++) tot += w[i] * ((first && (i == K_IN || i == K_INR)) ? 3 : 1);
     int v = (int)r.below(tot);
     for (int i = 0; i < K_COUNT; i++) { int ww = w[i] * ((first && (i == K_IN || i == K_INR)) ? 3 : 1); if (v < ww) return i; v -= ww; }
@@ -245,6 +264,7 @@ static void gen_params(NodeRec& n, Rng& r) {
     case K_ASYNC: n.limit = r.chance(1, 2) ? 0 : pick_limit(r, false); n.variant = (int)r.below(2); break;
     case K_CONT: n.variant = (int)r.below(2); n.policy = (int)r.below(2); break;
     case K_FAN: n.k = 2 + (int)r.below(2); n.limit = pick_limit(r, false); n.front = (int)r.below(3); break;
+    case K_LFAN: n.limit = pick_limit(r, true); n.variant = (int)r.below(6); break;
     case K_IN: n.nin = 0; break;
     case K_INR: n.nin = 0; n.limit = 1 + (int)r.below(2); break;
     default: break;
